@@ -1,12 +1,31 @@
 """C03 - every item of a generated dataset is a correctly solved maze."""
 ID = "C03"
-LEVEL = "exploration"
-LEVEL_TEXT = 'Bounded (run-time contract checking of the real generate pipeline): the per-item contract (grid size, solution endpoints = start/end, in grid, along connections, simple, shortest by BFS, endpoint options, dataset length) is evaluated on every element of datasets generated serially and with worker pools of sizes 1,2,3,5 over a cross product of generators, kwargs, grid sizes, seeds and endpoint options. The per-item facts themselves rest on the generator contracts (C01/C12) and the solver contract (C02), which are proved for every RNG state.'
-LEVEL_NOTE = 'Trusted: multiprocessing.Pool.imap delivers one result per task in task order. Optimality of solutions is bounded (C02).'
-TECHNIQUE = "bounded stand-in of the contract-based verifier: run-time checking of the real code against an independent executable statement over an enumerated scope (no function of this property is in the verified subset yet)"
-CONTRACT_MODULES = []
-PROVE = []
-ASSUMPTIONS = []
+LEVEL = "proof"
+LEVEL_TEXT = (
+    "PROVED (unbounded, z3; every grid shape >= 2x2, every generator argument combination, every endpoint option combination and EVERY random draw): the item "
+    "_generate_maze_helper composes for the depth-first and the Wilson generator - item lemmas over the callees' contracts: the generated maze has the requested shape and is "
+    "well-formed; the path returned by generate_random_path stays in the grid, follows only connections, repeats no cell, is a SHORTEST route between its ends (C02's optimality proof), "
+    "starts in allowed_start / ends in allowed_end when given, ends differ when endpoints_not_equal and by default. generate_random_path itself is verified against its real body for all "
+    "three metadata shapes the generators produce (candidate sets, dead-end filter through the neighbour-count contract, the option-free branch draws two distinct cells), given that the "
+    "metadata tells the truth (C12, proved for every generator); get_connected_component (mutually reachable, distinct, in-grid cells) and SolvedMaze.__init__ (solution stored, start/end = "
+    "its ends, both inside the grid, ValueError otherwise) are verified against their real bodies; the solver closure (find_shortest_path, neighbours, heuristic) is re-proved here. "
+    "NOT proved: the dead-end clauses at item level for shapes other than A are covered through generate_random_path's own contract; gen_prim / percolation items, the dataset length, "
+    "worker-pool scheduling and MazeDataset.generate itself (multiprocessing, muutils config copy) - decided by the bounded stand-in: run-time checking of the real generate pipeline "
+    "(serial and parallel pool sizes, all generators, option combinations) against the item contract."
+)
+LEVEL_NOTE = ("Trusted: pyvc encoding; RNG library contracts (value ranges only: every draw is a fresh universally quantified value, so a proved clause holds for every schedule and RNG state); "
+              "dataclass-generated __init__ (stores fields, runs __post_init__); get_nodes (assumed: every cell once; bounded in C13); lemmas reach_common, reach_induction, dist/astar_cut "
+              "(C02); multiprocessing.Pool.imap delivers one result per task in task order (bounded runs only).")
+TECHNIQUE = "contract-based deductive verification (endpoint selection, solved-maze construction, solver closure, item lemmas over generator contracts; z3) + bounded run-time checking of the real generate pipeline incl. worker pools"
+CONTRACT_MODULES = ["contracts.lattice_maze", "contracts.solver", "contracts.generators", "contracts.serialization", "contracts.paths"]
+F = "maze_dataset/maze/lattice_maze.py"
+L = "/verif/contracts/lemmas_src.py"
+PROVE = [
+    (F, "LatticeMaze.heuristic"), (F, "LatticeMaze.nodes_connected"), (F, "LatticeMaze.get_coord_neighbors"), (F, "LatticeMaze.find_shortest_path"),
+    (F, "LatticeMaze.get_connected_component"), (F, "LatticeMaze.generate_random_path"), (F, "SolvedMaze.__init__"),
+    (L, "item_dfs"), (L, "item_wilson"),
+]
+ASSUMPTIONS = ["grid at least 2x2 (generate_random_path asserts it)", "the generator contracts used by the item lemmas are proved under C01/C12"]
 EXPLANATION = "see DESIGN.md C03"
 
 
